@@ -118,4 +118,539 @@ theorem step_lReuse {s : St} {t : Tid} {j : Job} {p : Pos} (h : SInv s) (hpc : s
   · keep hpc
   · keep hpc
 
+theorem freshP_data' {ncnt : Nat} {next : Nat → Nat} {data : Nat → DW} {mo : Nat → Option Tid}
+    (h : FreshP ncnt next data mo) (a : Nat) (w : DW) (ha : a < ncnt) :
+    FreshP ncnt next (upd data a w) mo := by
+  constructor
+  intro b hb
+  have := h.fresh b hb
+  have hne : b ≠ a := by omega
+  simp only [upd_other _ _ _ _ hne]
+  exact this
+
+theorem bit_upd_data {data : Nat → DW} {mo : Nat → Option Tid} (h : ∀ a, (data a).m = true ↔ mo a ≠ none)
+    (a : Nat) (w : DW) (hw : w.m = (data a).m) :
+    ∀ b, ((upd data a w) b).m = true ↔ mo b ≠ none := by
+  intro b
+  by_cases e : b = a
+  · subst e; simp only [upd_same, hw]; exact h b
+  · simp only [upd_other _ _ _ _ e]; exact h b
+
+/-- Another thread keeps its facts when the stepping thread `t` replaces the unmarked content `e` of a linked
+    node (by nothing, or by its own pending element `e2`, whose `home` is set). -/
+theorem TInv.frame_remove {s : St} {t t' : Tid} (h : SInv s) (_hne : t' ≠ t) (a e : Nat) (w : DW)
+    (pcf : Tid → PC) (cf : Tid → Nat → Bool) (hm' : Nat → Option Nat)
+    (hlk : s.lk a = true) (hd : s.data a = ⟨some e, false⟩)
+    (hh1 : ∀ x b, s.home x = some b → hm' x = some b)
+    (hh2 : ∀ x, pend (s.pc t') = some x → hm' x = s.home x) :
+    TInv { s with data := upd s.data a w, retired := upd s.retired e (some t), home := hm', cand := cf, pc := pcf }
+      t' (s.pc t') := by
+  have hq := h.thr t'
+  have b7 := hq.mcur
+  have b8 := hq.mprev
+  have b9 := hq.pcnt
+  have b14 := hq.phome
+  have hhe := h.elem.ehome a e (by rw [hd])
+  apply hq.frame <;> first | rfl | exact Nat.le_refl _ | (intros; rfl) | (intros; exact ⟨rfl, rfl⟩) | skip
+  · intro p hp; have := b7 p hp; dsimp only; refine ⟨?_, rfl⟩; grind [upd]
+  · intro p hp; have := b8 p hp; dsimp only; refine ⟨?_, rfl⟩; grind [upd]
+  · intro n hn; have := b9 n hn; dsimp only; refine ⟨?_, rfl⟩; grind [upd]
+  · intro x hx
+    have hxe : x ≠ e := by
+      intro hc; subst hc
+      have := b9 a (b14 x a hx hhe)
+      rw [hlk] at this; exact absurd this.2.2.1 (by simp)
+    exact ⟨rfl, upd_other _ _ _ _ hxe, hh2 x hx⟩
+  · exact hh1
+
+theorem step_eraseCas_ok {s : St} {t : Tid} {k : Int} {cur e : Nat} (h : SInv s) (hpc : s.pc t = .eraseCas k cur e)
+    (hd : s.data cur = ⟨some e, false⟩) :
+    SInv { (s.removed t e) with data := upd s.data cur ⟨none, false⟩, pc := upd s.pc t (.done [1, (e : Int)]) } := by
+  unpack h hpc t
+  have hlk : s.lk cur = true := by projs; exact a8'
+  have hcnt := o5 _ hlk
+  apply sinv_build_keep h (t := t) (Y := .done [1, (e : Int)])
+  · rfl
+  · exact h.ord
+  · exact freshP_data' h.fresh _ _ hcnt
+  · exact elemP_remove h.elem _ _ _ (by rw [hd])
+  · exact bit_upd_data h.bit _ _ (by rw [hd])
+  · intro a ha; have := hown a ha; projs
+  · intro a t0 h0 ha; exact ha
+  · constructor <;> intros <;> (try dsimp only [St.removed] at *) <;> projs <;> (try grind [upd])
+  · intro t0 h0; exact TInv.frame_remove h h0 _ _ _ _ _ _ hlk hd (fun _ _ hx => hx) (fun _ _ => rfl)
+  · keep hpc
+  · keep hpc
+
+theorem step_eraseCas_fail {s : St} {t : Tid} {k : Int} {cur e : Nat} (h : SInv s) (hpc : s.pc t = .eraseCas k cur e) :
+    SInv { s with pc := upd s.pc t (.wNext .erase k hd none) } := by
+  unpack h hpc t
+  pconly h hpc
+
+theorem step_updCas_ok {s : St} {t : Tid} {j : Job} {cur e : Nat} (h : SInv s) (hpc : s.pc t = .updCas j cur e)
+    (hd : s.data cur = ⟨some e, false⟩) :
+    SInv { (s.removed t e) with data := upd s.data cur ⟨some j.e, false⟩, home := upd s.home j.e (some cur),
+                                pc := upd s.pc t (.done [1, 0, (e : Int)]) } := by
+  have hab := h.pend_absent (t := t) (e := j.e) (by rw [hpc]; rfl) (by rw [hpc]; rfl)
+  have hhn := h.pend_homeless (t := t) (e := j.e) (by rw [hpc]; rfl) (by rw [hpc]; rfl)
+  unpack h hpc t
+  have hlk : s.lk cur = true := by projs; exact a8'
+  have hcnt := o5 _ hlk
+  have hne : j.e ≠ e := by intro hc; exact hab cur (by rw [hd, hc])
+  apply sinv_build_keep h (t := t) (Y := .done [1, 0, (e : Int)])
+  · rfl
+  · exact h.ord
+  · exact freshP_data' h.fresh _ _ hcnt
+  · exact elemP_replace h.elem _ _ _ _ (by rw [hd]) hab (by projs; exact a13.1) (by projs; exact a13.2)
+  · exact bit_upd_data h.bit _ _ (by rw [hd])
+  · intro a ha; have := hown a ha; projs
+  · intro a t0 h0 ha; exact ha
+  · constructor <;> intros <;> (try dsimp only [St.removed] at *) <;> projs <;> (try grind [upd])
+  · intro t0 h0
+    have hu := h.upend t0 t
+    rw [hpc] at hu
+    refine TInv.frame_remove h h0 _ _ _ _ _ _ hlk hd ?_ ?_
+    · intro x b hx
+      have hxe : x ≠ j.e := fun hc => by rw [hc, hhn] at hx; cases hx
+      rw [upd_other _ _ _ _ hxe]; exact hx
+    · intro x hx
+      have hxe : x ≠ j.e := fun hc => h0 (hu x hx (by rw [hc]; rfl))
+      exact upd_other _ _ _ _ hxe
+  · keep hpc
+  · keep hpc
+
+theorem step_updCas_fail {s : St} {t : Tid} {j : Job} {cur e : Nat} (h : SInv s) (hpc : s.pc t = .updCas j cur e) :
+    SInv { s with pc := upd s.pc t (.wHead j) } := by
+  unpack h hpc t
+  pconly h hpc
+
+/-! ### Building and linking a node -/
+
+/-- Writing the `next` word of a node that is not linked does not affect the chain. -/
+theorem ordP_next_unlinked {lk : Nat → Bool} {lt : Nat → Nat → Bool} {next : Nat → Nat} {ncnt : Nat}
+    (h : OrdP lk lt next ncnt) (n v : Nat) (hn : lk n = false) (ncnt' : Nat) (hc : ncnt ≤ ncnt') :
+    OrdP lk lt (upd next n v) ncnt' := by
+  obtain ⟨o1,o2,o3,o4,o5,o6,o7,o8,o9,o10,o11,o12,o13,o14⟩ := h
+  constructor
+  · exact o1
+  · exact o2
+  · exact o3
+  · omega
+  · intro a ha; have := o5 a ha; omega
+  · exact o6
+  · exact o7
+  · exact o8
+  · exact o9
+  · exact o10
+  · exact o11
+  · intro a ha h2; have : a ≠ n := by grind
+    rw [upd_other _ _ _ _ this]; exact o12 a ha h2
+  · intro a b ha h2 h3; have : a ≠ n := by grind
+    rw [upd_other _ _ _ _ this]; exact o13 a b ha h2 h3
+  · have : (2 : Nat) ≠ n := by grind
+    rw [upd_other _ _ _ _ this]; exact o14
+
+theorem elemP_cnt {data : Nat → DW} {home : Nat → Option Nat} {retired : Nat → Option Tid} {used disposed : Nat → Bool}
+    {ncnt : Nat} (h : ElemP data home retired used disposed ncnt) (ncnt' : Nat) (hc : ncnt ≤ ncnt') :
+    ElemP data home retired used disposed ncnt' := by
+  obtain ⟨e1, e2, e3, e4, e5, e6, e7⟩ := h
+  exact ⟨e1, e2, e3, e4, fun e a ha => by have := e5 e a ha; exact ⟨this.1, this.2.1, by omega⟩, e6, e7⟩
+
+/-- Linking the new node `x` between the adjacent nodes `p` and `c`. -/
+theorem ordP_insert {lk : Nat → Bool} {lt : Nat → Nat → Bool} {next : Nat → Nat} {ncnt : Nat}
+    (h : OrdP lk lt next ncnt) (p c x : Nat) (hp : lk p = true) (hc : lk c = true) (hpc : next p = c)
+    (hp2 : p ≠ 2) (hx : lk x = false) (hxc : x < ncnt) (hx0 : x ≠ 0) (hxn : next x = c) :
+    OrdP (upd lk x true) (ltIns lt p c x) (upd next p x) ncnt := by
+  obtain ⟨o1,o2,o3,o4,o5,o6,o7,o8,o9,o10,o11,o12,o13,o14⟩ := h
+  have hpcl : lt p c = true := by rw [← hpc]; exact o12 p hp hp2
+  have hxp : x ≠ p := fun e => by rw [e, hp] at hx; cases hx
+  have hxc' : x ≠ c := fun e => by rw [e, hc] at hx; cases hx
+  have hx1 : x ≠ 1 := fun e => by rw [e, o1] at hx; cases hx
+  have hx2 : x ≠ 2 := fun e => by rw [e, o2] at hx; cases hx
+  have hltx : ∀ a, lt a x = false := by
+    intro a; cases hh : lt a x with
+    | false => rfl
+    | true => have := (o6 a x hh).2; rw [hx] at this; cases this
+  have L1 : ∀ a b, a ≠ x → b ≠ x → ltIns lt p c x a b = lt a b := by
+    intro a b ha hb; simp [ltIns, ha, hb]
+  have L2 : ∀ b, b ≠ x → ltIns lt p c x x b = (b == c || lt c b) := by
+    intro b hb; simp [ltIns, hb]
+  have L3 : ∀ a, a ≠ x → ltIns lt p c x a x = (a == p || lt a p) := by
+    intro a ha; simp [ltIns, ha]
+  have L4 : ltIns lt p c x x x = false := by simp [ltIns]
+  have K1 : ∀ a, a ≠ x → upd lk x true a = lk a := fun a ha => upd_other _ _ _ _ ha
+  have K2 : upd lk x true x = true := upd_same _ _ _
+  have hlknx : ∀ a, lk a = true → a ≠ 2 → lk (next a) = true := fun a ha h2 => (o6 _ _ (o12 a ha h2)).2
+  have hnex : ∀ a, lk a = true → a ≠ x := fun a ha e => by rw [e, hx] at ha; cases ha
+  refine ⟨?_, ?_, ?_, o4, ?_, ?_, ?_, ?_, ?_, ?_, ?_, ?_, ?_, ?_⟩
+  · rw [K1 1 (Ne.symm hx1)]; exact o1
+  · rw [K1 2 (Ne.symm hx2)]; exact o2
+  · rw [K1 0 (Ne.symm hx0)]; exact o3
+  · intro a ha
+    by_cases e : a = x
+    · rw [e]; exact hxc
+    · rw [K1 a e] at ha; exact o5 a ha
+  · intro a b hab
+    by_cases ea : a = x <;> by_cases eb : b = x
+    · subst ea; subst eb; rw [L4] at hab; cases hab
+    · subst ea; rw [L2 b eb] at hab; rw [K2, K1 b eb]
+      refine ⟨rfl, ?_⟩
+      simp only [Bool.or_eq_true, beq_iff_eq] at hab
+      rcases hab with h | h
+      · rw [h]; exact hc
+      · exact (o6 _ _ h).2
+    · subst eb; rw [L3 a ea] at hab; rw [K2, K1 a ea]
+      refine ⟨?_, rfl⟩
+      simp only [Bool.or_eq_true, beq_iff_eq] at hab
+      rcases hab with h | h
+      · rw [h]; exact hp
+      · exact (o6 _ _ h).1
+    · rw [L1 a b ea eb] at hab; rw [K1 a ea, K1 b eb]; exact o6 a b hab
+  · intro a
+    by_cases ea : a = x
+    · subst ea; exact L4
+    · rw [L1 a a ea ea]; exact o7 a
+  · intro a b d hab hbd
+    by_cases ea : a = x <;> by_cases eb : b = x <;> by_cases ed : d = x
+    · subst ea; subst eb; rw [L4] at hab; cases hab
+    · subst ea; subst eb; rw [L4] at hab; cases hab
+    · subst ea; subst ed; rw [L2 b eb] at hab; rw [L3 b eb] at hbd
+      simp only [Bool.or_eq_true, beq_iff_eq] at hab hbd
+      exfalso; clear L1 L2 L3 L4 K1 K2 o9 o10 o11 o12 o13 o5 hlknx hnex hltx
+      grind
+    · subst ea; rw [L2 b eb] at hab; rw [L1 b d eb ed] at hbd; rw [L2 d ed]
+      simp only [Bool.or_eq_true, beq_iff_eq] at hab ⊢
+      clear L1 L2 L3 L4 K1 K2 o9 o10 o11 o12 o13 o5 hlknx hnex hltx
+      grind
+    · subst eb; subst ed; rw [L4] at hbd; cases hbd
+    · subst eb; rw [L3 a ea] at hab; rw [L2 d ed] at hbd; rw [L1 a d ea ed]
+      simp only [Bool.or_eq_true, beq_iff_eq] at hab hbd
+      clear L1 L2 L3 L4 K1 K2 o9 o10 o11 o12 o13 o5 hlknx hnex hltx
+      grind
+    · subst ed; rw [L1 a b ea eb] at hab; rw [L3 b eb] at hbd; rw [L3 a ea]
+      simp only [Bool.or_eq_true, beq_iff_eq] at hbd ⊢
+      clear L1 L2 L3 L4 K1 K2 o9 o10 o11 o12 o13 o5 hlknx hnex hltx
+      grind
+    · rw [L1 a b ea eb] at hab; rw [L1 b d eb ed] at hbd; rw [L1 a d ea ed]; exact o8 a b d hab hbd
+  · intro a b ha hb hab
+    by_cases ea : a = x <;> by_cases eb : b = x
+    · exact absurd (ea.trans eb.symm) hab
+    · subst ea; rw [K1 b eb] at hb; rw [L2 b eb, L3 b eb]
+      simp only [Bool.or_eq_true, beq_iff_eq]
+      have t1 := o9 b p hb hp
+      have t2 := o9 b c hb hc
+      have t3 := o13 p b hp hp2
+      rw [hpc] at t3
+      clear L1 L2 L3 L4 K1 K2 o9 o10 o11 o12 o13 o5 o8 hlknx hnex hltx
+      grind
+    · subst eb; rw [K1 a ea] at ha; rw [L2 a ea, L3 a ea]
+      simp only [Bool.or_eq_true, beq_iff_eq]
+      have t1 := o9 a p ha hp
+      have t2 := o9 a c ha hc
+      have t3 := o13 p a hp hp2
+      rw [hpc] at t3
+      clear L1 L2 L3 L4 K1 K2 o9 o10 o11 o12 o13 o5 o8 hlknx hnex hltx
+      grind
+    · rw [K1 a ea] at ha; rw [K1 b eb] at hb; rw [L1 a b ea eb, L1 b a eb ea]; exact o9 a b ha hb hab
+  · intro a ha h1
+    by_cases ea : a = x
+    · subst ea; rw [L3 1 (Ne.symm hx1)]
+      simp only [Bool.or_eq_true, beq_iff_eq]
+      by_cases ep : p = 1
+      · left; exact ep.symm
+      · right; exact o10 p hp ep
+    · rw [K1 a ea] at ha; rw [L1 1 a (Ne.symm hx1) ea]; exact o10 a ha h1
+  · intro a ha h2
+    by_cases ea : a = x
+    · subst ea; rw [L2 2 (Ne.symm hx2)]
+      simp only [Bool.or_eq_true, beq_iff_eq]
+      by_cases ec : c = 2
+      · left; exact ec.symm
+      · right; exact o11 c hc ec
+    · rw [K1 a ea] at ha; rw [L1 a 2 ea (Ne.symm hx2)]; exact o11 a ha h2
+  · intro a ha h2
+    by_cases ea : a = x
+    · subst ea; rw [upd_other _ _ _ _ hxp, hxn, L2 c (Ne.symm hxc')]; simp
+    · rw [K1 a ea] at ha
+      by_cases ep : a = p
+      · subst ep; rw [upd_same, L3 a ea]; simp
+      · rw [upd_other _ _ _ _ ep, L1 a (next a) ea (hnex _ (hlknx a ha h2))]; exact o12 a ha h2
+  · intro a b ha h2 hab hbn
+    by_cases ea : a = x
+    · subst ea
+      rw [upd_other _ _ _ _ hxp, hxn] at hbn
+      by_cases eb : b = a
+      · subst eb; rw [L4] at hab; cases hab
+      · rw [L2 b eb] at hab; rw [L1 b c eb (Ne.symm hxc')] at hbn
+        simp only [Bool.or_eq_true, beq_iff_eq] at hab
+        clear L1 L2 L3 L4 K1 K2 o9 o10 o11 o12 o13 o5 hlknx hnex hltx
+        grind
+    · rw [K1 a ea] at ha
+      by_cases ep : a = p
+      · subst ep; rw [upd_same] at hbn
+        by_cases eb : b = x
+        · subst eb; rw [L4] at hbn; cases hbn
+        · rw [L1 a b ea eb] at hab; rw [L3 b eb] at hbn
+          simp only [Bool.or_eq_true, beq_iff_eq] at hbn
+          clear L1 L2 L3 L4 K1 K2 o9 o10 o11 o12 o13 o5 hlknx hnex hltx
+          grind
+      · rw [upd_other _ _ _ _ ep] at hbn
+        have hn := hlknx a ha h2
+        have hnx := hnex _ hn
+        by_cases eb : b = x
+        · subst eb; rw [L3 a ea] at hab; rw [L2 (next a) hnx] at hbn
+          simp only [Bool.or_eq_true, beq_iff_eq] at hab hbn
+          have t1 := o9 (next a) p hn hp
+          have t3 := o13 a p ha h2
+          clear L1 L2 L3 L4 K1 K2 o9 o10 o11 o12 o13 o5 hlknx hnex hltx
+          grind
+        · rw [L1 a b ea eb] at hab; rw [L1 b (next a) eb hnx] at hbn; exact o13 a b ha h2 hab hbn
+  · have : (2 : Nat) ≠ p := Ne.symm hp2
+    rw [upd_other _ _ _ _ this]; exact o14
+
+theorem adjOf_posOf {pc : PC} {q : Pos} (h : adjOf pc = some q) : posOf pc = some q := by
+  cases pc <;> simp only [adjOf, reduceCtorEq] at h <;> simpa [posOf] using h
+
+theorem adjOf_ppos {pc : PC} {q : Pos} (h : adjOf pc = some q) : ppos pc = some q := by
+  cases pc <;> simp only [adjOf, reduceCtorEq] at h <;> simpa [ppos, posOf] using h
+
+theorem lpos_posOf {pc : PC} {q : Pos} (h : lpos pc = some q) : posOf pc = some q := by
+  cases pc <;> simp only [lpos, reduceCtorEq] at h <;> first | exact h | simpa [posOf] using h
+
+theorem ppos_posOf {pc : PC} {q : Pos} (h : ppos pc = some q) : posOf pc = some q := by
+  cases pc <;> simp only [ppos, reduceCtorEq] at h <;> first | exact h | simpa [posOf] using h
+
+/-- Another thread keeps its facts when the stepping thread writes a word of ITS node under construction `n`
+    (and, when it stores its pending element there, sets that element's `home`). -/
+theorem TInv.frame_priv {s : St} {t t' : Tid} (h : SInv s) (hne : t' ≠ t) (n : Nat)
+    (hn : priv (s.pc t) = some n) (nx : Nat → Nat) (dt : Nat → DW) (hm' : Nat → Option Nat) (pcf : Tid → PC)
+    (hnx : ∀ b, b ≠ n → nx b = s.next b) (hdt : ∀ b, b ≠ n → dt b = s.data b)
+    (hh1 : ∀ x b, s.home x = some b → hm' x = some b)
+    (hh2 : ∀ x, pend (s.pc t') = some x → hm' x = s.home x) :
+    TInv { s with next := nx, data := dt, home := hm', pc := pcf } t' (s.pc t') := by
+  have hq := h.thr t'
+  have hnl := ((h.thr t).pcnt n hn).2.2.1
+  have lkne : ∀ b, s.lk b = true → b ≠ n := fun b hb e => by rw [e, hnl] at hb; cases hb
+  apply hq.frame <;> first | rfl | exact Nat.le_refl _ | (intros; rfl) | (intros; exact ⟨rfl, rfl⟩) | skip
+  · intro q hp; exact hnx _ (lkne _ (hq.pos q (adjOf_posOf hp)).1)
+  · intro m hm; exact hnx _ (fun e => hne (h.upriv t' t n (e ▸ hm) hn))
+  · intro q hp; exact ⟨hdt _ (lkne _ (hq.pos q (lpos_posOf hp)).2.1), rfl⟩
+  · intro q hp; exact ⟨hdt _ (lkne _ (hq.pos q (ppos_posOf hp)).1), rfl⟩
+  · intro m hm; exact ⟨hdt _ (fun e => hne (h.upriv t' t n (e ▸ hm) hn)), rfl⟩
+  · intro x hx; exact ⟨rfl, rfl, hh2 x hx⟩
+  · exact hh1
+
+theorem step_lCtor2 {s : St} {t : Tid} {j : Job} {p : Pos} {n : Nat} (h : SInv s) (hpc : s.pc t = .lCtor2 j p n) :
+    SInv { s with data := upd s.data n ⟨some j.e, false⟩, home := upd s.home j.e (some n),
+                  pc := upd s.pc t (.lStNext j p n) } := by
+  have hpe : pend (s.pc t) = some j.e := by rw [hpc]; rfl
+  have hpn : priv (s.pc t) = some n := by rw [hpc]; rfl
+  have hab : ∀ b, (s.data b).p ≠ some j.e := by
+    intro b hb
+    have h2 := (h.thr t).phome j.e b hpe (h.elem.ehome b j.e hb)
+    rw [hpn] at h2
+    have hbn : n = b := by simpa using h2
+    have := (h.thr t).pctor j p n hpc
+    rw [← hbn, this] at hb; cases hb
+  unpack h hpc t
+  have hn : 3 ≤ n ∧ n < s.ncnt ∧ s.lk n = false ∧ s.mo n = none := by projs; exact a9
+  have hm : (s.data n).m = false := by
+    cases hh : (s.data n).m with
+    | false => rfl
+    | true => have := (h.bit n).1 hh; exact absurd hn.2.2.2 this
+  apply sinv_build_keep h (t := t) (Y := .lStNext j p n)
+  · rfl
+  · exact h.ord
+  · exact freshP_data' h.fresh _ _ hn.2.1
+  · exact elemP_store h.elem _ _ _ (a10 j p n rfl) hab (by projs; exact a13.1) (by projs; exact a13.2) ⟨hn.1, hn.2.1⟩
+  · exact bit_upd_data h.bit _ _ (by rw [hm])
+  · intro a ha; have := hown a ha; projs; exact this
+  · intro a t0 h0 ha; exact ha
+  · constructor <;> intros <;> projs <;> (try dsimp only) <;> (try grind [upd])
+  · intro t0 h0
+    have hu := h.upend t0 t
+    refine TInv.frame_priv h h0 n hpn _ _ _ _ (fun _ _ => rfl) (fun b hb => upd_other _ _ _ _ hb) ?_ ?_
+    · intro x b hx
+      by_cases e : x = j.e
+      · subst e; rw [upd_same]
+        have := (h.thr t).phome j.e b hpe hx
+        rw [hpn] at this; exact this
+      · rw [upd_other _ _ _ _ e]; exact hx
+    · intro x hx
+      have hxe : x ≠ j.e := fun hc => h0 (hu x hx (by rw [hc]; exact hpe))
+      exact upd_other _ _ _ _ hxe
+  · keep hpc
+  · keep hpc
+
+theorem step_lStNext {s : St} {t : Tid} {j : Job} {p : Pos} {n : Nat} (h : SInv s) (hpc : s.pc t = .lStNext j p n) :
+    SInv { s with next := upd s.next n p.cur, pc := upd s.pc t (.lCasNext j p n) } := by
+  have hpn : priv (s.pc t) = some n := by rw [hpc]; rfl
+  unpack h hpc t
+  have hn : 3 ≤ n ∧ n < s.ncnt ∧ s.lk n = false ∧ s.mo n = none := by projs; exact a9
+  apply sinv_build_keep h (t := t) (Y := .lCasNext j p n)
+  · rfl
+  · exact ordP_next_unlinked h.ord _ _ hn.2.2.1 _ (Nat.le_refl _)
+  · constructor; intro b hb; have := h.fresh.fresh b hb
+    have hne : b ≠ n := by dsimp only at hb; omega
+    dsimp only; rw [upd_other _ _ _ _ hne]; exact this
+  · exact h.elem
+  · exact h.bit
+  · intro a ha; have := hown a ha; projs; exact this
+  · intro a t0 h0 ha; exact ha
+  · constructor <;> intros <;> projs <;> (try dsimp only) <;> (try grind [upd])
+  · intro t0 h0
+    exact TInv.frame_priv h h0 n hpn _ _ _ _ (fun b hb => upd_other _ _ _ _ hb) (fun _ _ => rfl)
+      (fun _ _ hx => hx) (fun _ _ => rfl)
+  · keep hpc
+  · keep hpc
+
+theorem step_lCtor1 {s : St} {t : Tid} {j : Job} {p : Pos} (h : SInv s) (hpc : s.pc t = .lCtor1 j p) :
+    SInv { s with next := upd s.next s.ncnt 0, ncnt := s.ncnt + 1, pc := upd s.pc t (.lCtor2 j p s.ncnt) } := by
+  unpack h hpc t
+  have hf := h.fresh.fresh s.ncnt (Nat.le_refl _)
+  have hnl : s.lk s.ncnt = false := by
+    cases hh : s.lk s.ncnt with
+    | false => rfl
+    | true => have := o5 _ hh; omega
+  apply sinv_build h (t := t) (Y := .lCtor2 j p s.ncnt)
+  · rfl
+  · exact ordP_next_unlinked h.ord _ _ hnl _ (Nat.le_succ _)
+  · constructor; intro b hb; dsimp only at hb
+    have := h.fresh.fresh b (by omega)
+    have hne : b ≠ s.ncnt := by omega
+    dsimp only; rw [upd_other _ _ _ _ hne]; exact this
+  · exact elemP_cnt h.elem _ (Nat.le_succ _)
+  · exact h.bit
+  · intro a ha; have := hown a ha; projs; exact this
+  · intro a t0 h0 ha; exact ha
+  · constructor <;> intros <;> projs <;> (try dsimp only) <;> (try grind [upd])
+  · intro t0 h0
+    have hq := h.thr t0
+    have b4 := hq.pos
+    have b9 := hq.pcnt
+    apply hq.frame <;> first | rfl | exact Nat.le_succ _ | (intros; rfl) | (intros; exact ⟨rfl, rfl⟩) | (intros; exact ⟨rfl, rfl, rfl⟩) | (intros; assumption) | skip
+    · intro q hp; dsimp only
+      have hl : s.lk q.prev = true := by
+        have := hq.adj q hp
+        cases hc : s.pc t0 <;> rw [hc] at hp <;> simp only [adjOf, reduceCtorEq] at hp <;>
+          exact (b4 q (by rw [hc]; simpa [posOf] using hp)).1
+      have hne : q.prev ≠ s.ncnt := fun e => by rw [e, hnl] at hl; cases hl
+      exact upd_other _ _ _ _ hne
+    · intro n hn; have := b9 n hn; dsimp only
+      have hne : n ≠ s.ncnt := by omega
+      exact upd_other _ _ _ _ hne
+  · intro n hn t0 h0 hc
+    have := ((h.thr t0).pcnt n hc).2.1
+    simp only [priv, Option.some.injEq] at hn; omega
+  · intro e he t0 h0 hc
+    exact h0 (h.upend t0 t e hc (by rw [hpc]; exact he))
+
+theorem ltIns_old {lt : Nat → Nat → Bool} {p c x a b : Nat} (ha : a ≠ x) (hb : b ≠ x) :
+    ltIns lt p c x a b = lt a b := by simp [ltIns, ha, hb]
+
+theorem lCasNext_enabled {s : St} {t : Tid} {j : Job} {p : Pos} {n : Nat} (h : SInv s)
+    (hpc : s.pc t = .lCasNext j p n) : s.next p.prev = p.cur :=
+  (h.thr t).adj p (by rw [hpc]; rfl)
+
+/-- Another thread keeps its facts when the stepping thread links its node `n` between `pr` and `cu`, whose marks
+    it holds. -/
+theorem TInv.frame_link {s : St} {t t' : Tid} (h : SInv s) (hne : t' ≠ t) (n pr cu : Nat)
+    (hn : priv (s.pc t) = some n) (hmo : s.mo pr = some t) (pcf : Tid → PC) :
+    TInv { s with next := upd s.next pr n, lk := upd s.lk n true, lt := ltIns s.lt pr cu n, pc := pcf }
+      t' (s.pc t') := by
+  have hq := h.thr t'
+  obtain ⟨a1,a2,a3,a4,a5,a6,a7,a8,a8',a9,a10,a11,a12,a13,a14,a15,a16,a17,a18,a19,a20,a21,a22⟩ := hq
+  have hnl := ((h.thr t).pcnt n hn).2.2.1
+  have lkne : ∀ b, s.lk b = true → b ≠ n := fun b hb e => by rw [e, hnl] at hb; cases hb
+  have lkmono : ∀ b, s.lk b = true → upd s.lk n true b = true := fun b hb => by
+    rw [upd_other _ _ _ _ (lkne b hb)]; exact hb
+  have ltmono : ∀ a b, s.lt a b = true → ltIns s.lt pr cu n a b = true := fun a b hab => by
+    have := h.ord.ltlk a b hab
+    rw [ltIns_old (lkne a this.1) (lkne b this.2)]; exact hab
+  constructor
+  · intro a ha; exact ⟨lkmono a (a1 a ha).1, (a1 a ha).2⟩
+  · intro a b hab; exact ⟨lkmono b (a2 a b hab).1, ltmono a b (a2 a b hab).2⟩
+  · exact a3
+  · intro q hq; have := a4 q hq; exact ⟨lkmono _ this.1, lkmono _ this.2.1, ltmono _ _ this.2.2⟩
+  · intro q hq; dsimp only
+    have hne' : q.prev ≠ pr := fun e => by
+      have := (a8 q (adjOf_ppos hq)).1
+      rw [e, hmo] at this
+      exact hne (Option.some.inj this).symm
+    rw [upd_other _ _ _ _ hne']; exact a5 q hq
+  · exact a6
+  · exact a7
+  · exact a8
+  · intro a ha; exact lkmono a (a8' a ha)
+  · intro m hm; have := a9 m hm
+    have hmn : m ≠ n := fun e => hne (h.upriv t' t n (e ▸ hm) hn)
+    exact ⟨this.1, this.2.1, by dsimp only; rw [upd_other _ _ _ _ hmn]; exact this.2.2.1, this.2.2.2⟩
+  · exact a10
+  · exact a11
+  · intro j' q m hpc; dsimp only
+    have hm : priv (s.pc t') = some m := by rw [hpc]; rfl
+    have hl := (a9 m hm).2.2.1
+    have hmp : m ≠ pr := fun e => by
+      have := h.own pr t hmo
+      have hlp : s.lk pr = true := by
+        rcases this with h1 | h1
+        · cases hl1 : lpos (s.pc t) with
+          | none => rw [hl1] at h1; cases h1
+          | some q1 =>
+            rw [hl1] at h1; simp only [Option.map_some, Option.some.injEq] at h1
+            have := ((h.thr t).pos q1 (lpos_posOf hl1)).2.1; rw [h1] at this; exact this
+        · cases hl1 : ppos (s.pc t) with
+          | none => rw [hl1] at h1; cases h1
+          | some q1 =>
+            rw [hl1] at h1; simp only [Option.map_some, Option.some.injEq] at h1
+            have := ((h.thr t).pos q1 (ppos_posOf hl1)).1; rw [h1] at this; exact this
+      rw [e, hlp] at hl; cases hl
+    rw [upd_other _ _ _ _ hmp]; exact a12 j' q m hpc
+  · exact a13
+  · exact a14
+  · exact a15
+  · exact lkmono _ a16
+  · exact a17
+  · exact a18
+  · exact a19
+  · exact a20
+  · exact a21
+  · exact a22
+
+theorem step_lCasNext {s : St} {t : Tid} {j : Job} {p : Pos} {n : Nat} (h : SInv s) (hpc : s.pc t = .lCasNext j p n) :
+    SInv { s with next := upd s.next p.prev n, lk := upd s.lk n true, lt := ltIns s.lt p.prev p.cur n,
+                  pc := upd s.pc t (.lRelPrev j p true) } := by
+  have hpn : priv (s.pc t) = some n := by rw [hpc]; rfl
+  unpack h hpc t
+  have hn : 3 ≤ n ∧ n < s.ncnt ∧ s.lk n = false ∧ s.mo n = none := by projs; exact a9
+  have hpos : s.lk p.prev = true ∧ s.lk p.cur = true ∧ s.lt p.prev p.cur = true := by projs; exact a4
+  have hadj : s.next p.prev = p.cur := by projs; exact a5
+  have hmo : s.mo p.prev = some t := by projs; exact a8.1
+  have hp2 : p.prev ≠ 2 := by
+    intro e; have := o11 p.cur hpos.2.1
+    have h3 := hpos.2.2; rw [e] at h3
+    by_cases ec : p.cur = 2
+    · rw [ec, o7] at h3; cases h3
+    · have := o8 _ _ _ h3 (this ec); rw [o7] at this; cases this
+  have lkne : ∀ b, s.lk b = true → b ≠ n := fun b hb e => by rw [e, hn.2.2.1] at hb; cases hb
+  apply sinv_build_keep h (t := t) (Y := .lRelPrev j p true)
+  · rfl
+  · exact ordP_insert h.ord _ _ _ hpos.1 hpos.2.1 hadj hp2 hn.2.2.1 hn.2.1 (by omega) (a12 j p n rfl)
+  · constructor; intro b hb; have := h.fresh.fresh b hb
+    have hne : b ≠ p.prev := by have := o5 _ hpos.1; dsimp only at hb; omega
+    dsimp only; rw [upd_other _ _ _ _ hne]; exact this
+  · exact h.elem
+  · exact h.bit
+  · intro a ha; have := hown a ha; projs; exact this
+  · intro a t0 h0 ha; exact ha
+  · have e1 : upd s.lk n true p.prev = true := by rw [upd_other _ _ _ _ (lkne _ hpos.1)]; exact hpos.1
+    have e2 : upd s.lk n true p.cur = true := by rw [upd_other _ _ _ _ (lkne _ hpos.2.1)]; exact hpos.2.1
+    have e3 : ltIns s.lt p.prev p.cur n p.prev p.cur = true := by
+      rw [ltIns_old (lkne _ hpos.1) (lkne _ hpos.2.1)]; exact hpos.2.2
+    have e4 : upd s.lk n true (s.itn t) = true := by rw [upd_other _ _ _ _ (lkne _ a16)]; exact a16
+    constructor <;> intros <;> projs <;> (try dsimp only) <;> (try grind)
+  · intro t0 h0; exact TInv.frame_link h h0 n _ _ hpn hmo _
+  · keep hpc
+  · keep hpc
+
 end CdsVerif.Algo.Iterable
